@@ -1,10 +1,14 @@
 //! `zmqharness <engine>`: reads one op per line on stdin, drives the REAL zeromq code, prints one
 //! canonical result line per op.  The Lean driver `zmqmodel <engine>` reads the same lines.
+mod alloc;
 mod codec;
 mod tables;
 mod util;
 
 use std::io::{BufRead, Write};
+
+#[global_allocator]
+static GLOBAL: alloc::Counting = alloc::Counting;
 
 fn main() {
     let args: Vec<String> = std::env::args().collect();
@@ -25,6 +29,7 @@ fn main() {
                 }
                 let r = e.op(&words);
                 writeln!(out, "{}", r).unwrap();
+                out.flush().unwrap();
             }
         }
         "tables" => {
